@@ -297,6 +297,7 @@ func elemKindAt(spans []refcodec.Span, off int) string {
 }
 
 func runC06(c *Ctx) *Replay {
+	defer armEncCache()()
 	cfg := val.DefaultCfg()
 	cfg.LongProb = 80
 	cfg.LongLen = 5000
@@ -379,6 +380,54 @@ func runC06(c *Ctx) *Replay {
 			}
 		}
 	}
+	// the same value as the head of a GIANT one: a count of elements of fixed size is set to
+	// 2^20..2^24 (enclosing lengths adjusted), cuts lie in the count and in the elements
+	// that are present. Everything announced is honest, so whatever a decoder allocates for
+	// the count alone shows against the few bytes it was given.
+	if ng := refcodec.EligibleGiants(spans); ng > 0 && c.R.Chance(1, 2) {
+		g := &Giant{Which: c.R.Intn(ng), N: []int{1 << 20, 1<<22 + 1, 1<<24 - 1}[c.R.Intn(3)]}
+		if gd, cs, ok := refcodec.GiantPrefix(data, spans, g.Which, g.N); ok {
+			set := map[int]bool{}
+			for k := cs.Start; k <= cs.End+2*cs.Fixed && k < len(gd); k++ {
+				set[k] = true
+			}
+			for k := len(gd) - 1; k >= cs.End && k >= len(gd)-1-cs.Fixed; k-- {
+				set[k] = true
+			}
+			var gcuts []int
+			for k := range set {
+				gcuts = append(gcuts, k)
+			}
+			sort.Ints(gcuts)
+			c.Count("giant_values", 1)
+			for _, k := range gcuts {
+				for _, variant := range []string{"unmarshal", "decode", "decode-chunked"} {
+					sc := Scenario{Kind: "truncate", Prog: b.Prog.ID, Mask: b.Mask, PeerMask: peerMask, OldPeer: oldPeer, Type: pk.Type, Value: &v, Cut: k, Decoder: variant, Giant: g}
+					switch variant {
+					case "decode":
+						sc.Sched = &simnet.Schedule{Name: "all"}
+						sc.Reader = "plain"
+						sc.RFault = &simnet.ReadFault{At: k, Err: "eof"}
+					case "decode-chunked":
+						sc.Decoder = "decode"
+						sc.Sched = chunked
+						sc.Reader = reader
+						sc.RFault = &simnet.ReadFault{At: k, Err: errName, Partial: k%2 == 1}
+					}
+					viol := execTruncate(c.N, &sc)
+					c.Count("evaluations", 1)
+					c.Count("fault:giant-truncate-"+variant, 1)
+					c.State("c06g", shape, fmt.Sprint(k-cs.Start), variant)
+					if viol != nil {
+						c.Log("giant", k, variant, viol.Signature)
+						if rp := c.shrinkAndReport(&sc, viol); rp != nil {
+							return rp
+						}
+					}
+				}
+			}
+		}
+	}
 	c.Log("done")
 	return nil
 }
@@ -386,7 +435,36 @@ func runC06(c *Ctx) *Replay {
 // validEncoding is the reference encoding of the scenario's value.
 func validEncoding(b *Build, sc *Scenario) ([]byte, []refcodec.Span) {
 	t := schema.Type{Named: sc.Type}
-	return refcodec.EncodeSpans(b.Schema, t, val.Normalise(b.Schema, t, *sc.Value))
+	// the enumeration loops hand the same *Value to thousands of faulted runs: its encoding
+	// is computed once (the cache is keyed by the pointer and dropped before any shrinking,
+	// which works on copies)
+	if ec := &encCache; ec.val == sc.Value && ec.build == b && ec.typ == sc.Type {
+		return ec.data, ec.spans
+	}
+	data, spans := refcodec.EncodeSpans(b.Schema, t, val.Normalise(b.Schema, t, *sc.Value))
+	if encCache.armed {
+		encCache.val, encCache.build, encCache.typ, encCache.data, encCache.spans = sc.Value, b, sc.Type, data, spans
+	}
+	return data, spans
+}
+
+var encCache struct {
+	armed bool
+	val   *val.Value
+	build *Build
+	typ   string
+	data  []byte
+	spans []refcodec.Span
+}
+
+// armEncCache switches the one-entry encoding cache on for an enumeration loop; the
+// returned function switches it off and forgets the entry.
+func armEncCache() func() {
+	encCache.armed = true
+	return func() {
+		encCache.armed = false
+		encCache.val, encCache.build, encCache.data, encCache.spans = nil, nil, nil, nil
+	}
 }
 
 func execTruncate(n *Node, sc *Scenario) *Violation {
@@ -398,6 +476,14 @@ func execTruncate(n *Node, sc *Scenario) *Violation {
 	data, spans := validEncoding(b, sc)
 	if len(data) == 0 {
 		return nil
+	}
+	if sc.Giant != nil {
+		gd, _, ok := refcodec.GiantPrefix(data, spans, sc.Giant.Which, sc.Giant.N)
+		if !ok {
+			note(sc, "skipped", "no such count to inflate")
+			return nil
+		}
+		data = gd
 	}
 	k := sc.Cut
 	if k >= len(data) {
@@ -449,6 +535,7 @@ func init() {
 }
 
 func runC08(c *Ctx) *Replay {
+	defer armEncCache()()
 	cfg := val.DefaultCfg()
 	cfg.LongProb = 80
 	cfg.LongLen = 2000
